@@ -278,7 +278,7 @@ func (c *cors) handle(node types.Node, wh http.Header, r *http.Request) {
 		}
 		if c.allowHeadersString != "" {
 			wh.Set(header.AccessControlAllowHeaders, c.allowHeadersString)
-			wh.Add(header.Vary, header.AccessControlAllowHeaders)
+			wh.Add(header.Vary, header.AccessControlRequestHeaders)
 		}
 
 		// Access-Control-Max-Age
@@ -297,7 +297,7 @@ func (c *cors) handle(node types.Node, wh http.Header, r *http.Request) {
 		allowOrigin = origin
 	}
 	wh.Set(header.AccessControlAllowOrigin, allowOrigin)
-	wh.Add(header.Vary, header.AccessControlAllowOrigin)
+	wh.Add(header.Vary, header.Origin)
 
 	// Access-Control-Allow-Credentials
 	if c.AllowCredentials {
@@ -321,7 +321,8 @@ func (c *cors) headerIsAllowed(r *http.Request) bool {
 	}
 
 	for _, v := range strings.Split(h, ",") {
-		if slices.Index(c.AllowHeaders, strings.TrimSpace(v)) < 0 {
+		v = strings.TrimSpace(v)
+		if !slices.ContainsFunc(c.AllowHeaders, func(a string) bool { return strings.EqualFold(a, v) }) {
 			return false
 		}
 	}
